@@ -3,7 +3,7 @@
    the boolean law holds of the model. *)
 From Coq Require Import ZArith List Bool Lia Arith PeanoNat.
 From TV Require Import Common.PySlice Common.PyList Common.PyListInv Common.Harness
-  C05.Normalize C05.Model C05.Law C05.Corr C05.Proofs C04.Model C04.Law C04.Corr C04.Proofs C04.Deep.
+  C05.Normalize C05.Model C05.Law C05.Corr C05.Proofs C04.Model C04.Law C04.Corr C04.Proofs C04.DefaultProofs C04.Deep.
 Import ListNotations.
 Local Open Scope Z_scope.
 
@@ -12,6 +12,7 @@ Section ItemInd.
   Variable P : item -> Prop.
   Hypothesis HA : forall z, P (Atom z).
   Hypothesis HL : forall l, Forall P l -> P (Lst l).
+  Hypothesis HD : forall m, Forall (fun p => P (snd p)) m -> P (Dct m).
   Fixpoint item_ind' (x : item) : P x :=
     match x with
     | Atom z => HA z
@@ -20,24 +21,50 @@ Section ItemInd.
                         | [] => Forall_nil P
                         | y :: r => Forall_cons y (item_ind' y) (go r)
                         end) l)
+    | Dct m => HD m ((fix go (m : list (Z * item)) : Forall (fun p => P (snd p)) m :=
+                        match m with
+                        | [] => Forall_nil _
+                        | p :: r => Forall_cons p (item_ind' (snd p)) (go r)
+                        end) m)
     end.
 End ItemInd.
 
 Lemma item_eqb_refl x : item_eqb x x = true.
 Proof.
-  induction x as [z|l IH] using item_ind'; cbn; [apply Z.eqb_refl|].
-  induction IH as [|y r Hy _ IHr]; [reflexivity|]. rewrite Hy. exact IHr.
+  induction x as [z|l IH|m IH] using item_ind'; cbn; [apply Z.eqb_refl| |].
+  - induction IH as [|y r Hy _ IHr]; [reflexivity|]. rewrite Hy. exact IHr.
+  - induction IH as [|[k y] r Hy _ IHr]; [reflexivity|]. cbn in Hy. rewrite Z.eqb_refl, Hy. exact IHr.
 Qed.
 
-Lemma vld_of_dom k x y : vld_of k x = Some y -> dom_of k y = true.
+(* ---------- dicts of items ---------- *)
+Section IMap.
+  Variable R : Z * item -> Prop.
+  Lemma F_dset k v m : R (k, v) -> Forall R m -> Forall R (dset k v m).
+  Proof.
+    intros Hp F. induction m as [|[k' v'] m IH]; cbn; [constructor; [exact Hp|constructor]|].
+    inversion F; subst. destruct (k =? k'); constructor; auto.
+  Qed.
+  Lemma F_dupdate ps : forall m, Forall R ps -> Forall R m -> Forall R (dupdate ps m).
+  Proof.
+    induction ps as [|[k v] ps IH]; intros m Fp Fm; cbn; [exact Fm|].
+    inversion Fp; subst. apply IH; [assumption|]. apply F_dset; assumption.
+  Qed.
+  Lemma F_dremove k m : Forall R m -> Forall R (dremove k m).
+  Proof.
+    intros F. apply Forall_forall. intros x Hx. apply filter_In in Hx. rewrite Forall_forall in F. apply F, Hx.
+  Qed.
+End IMap.
+Lemma dlookup_In k m v : dlookup k m = Some v -> In (k, v) m.
 Proof.
-  destruct k; cbn; intros H.
-  - reflexivity.
-  - destruct ((0 <=? x) && (x <? 100)) eqn:E; inversion H; subst. exact E.
-  - destruct ((0 <=? x) && (x <? 100)) eqn:E; [inversion H; subst; exact E|].
-    destruct ((100 <=? x) && (x <? 200)) eqn:E2; [inversion H; subst; lia|].
-    destruct ((300 <=? x) && (x <? 400)) eqn:E3; inversion H; subst. lia.
-  - destruct ((0 <=? x) && (x <? 90)) eqn:E; inversion H; subst. lia.
+  induction m as [|[k' v'] m IH]; cbn; [discriminate|]. destruct (Z.eqb_spec k k') as [->|].
+  - intros H. inversion H. left. reflexivity.
+  - intros H. right. apply IH. exact H.
+Qed.
+Lemma dset_same k v m : dlookup k m = Some v -> dset k v m = m.
+Proof.
+  induction m as [|[k' v'] m IH]; cbn; [discriminate|]. destruct (Z.eqb_spec k k') as [->|].
+  - intros H. inversion H. reflexivity.
+  - intros H. f_equal. apply IH. exact H.
 Qed.
 
 Lemma mapM_length {A B} (f : A -> option B) l l' : mapM f l = Some l' -> length l' = length l.
@@ -59,10 +86,16 @@ Qed.
 
 Lemma validate_wf t : forall x y, validate t x = Some y -> wfb t y = true.
 Proof.
-  induction t as [vk|inner IH mn mx]; intros x y H; cbn in H.
-  - destruct x as [z|l]; [|discriminate]. destruct (vld_of vk z) as [w|] eqn:V; [|discriminate]. inversion H.
+  induction t as [vk|inner IH mn mx|kk vt IH]; intros x y H; cbn in H.
+  3:{ destruct x as [z|l|m]; try discriminate.
+      destruct (mapM _ m) as [qs|] eqn:M; [|discriminate]. inversion H. cbn.
+      apply forallb_Forall. apply F_dupdate; [|constructor].
+      eapply mapM_Forall; [|exact M]. intros [k v] [k' v'] _ Hp. cbn in Hp.
+      destruct (vld_of kk k) as [k1|] eqn:K; [|discriminate]. destruct (validate vt v) as [v1|] eqn:V; [|discriminate].
+      inversion Hp; subst. cbn. rewrite (vld_of_dom kk k k' K), (IH v v' V). reflexivity. }
+  - destruct x as [z|l|m]; try discriminate. destruct (vld_of vk z) as [w|] eqn:V; [|discriminate]. inversion H.
     cbn. eapply vld_of_dom. exact V.
-  - destruct x as [z|l]; [discriminate|]. destruct (len_ok mn mx (zlen l)) eqn:L; [|discriminate].
+  - destruct x as [z|l|m]; try discriminate. destruct (len_ok mn mx (zlen l)) eqn:L; [|discriminate].
     destruct (mapM (validate inner) l) as [l'|] eqn:M; [|discriminate]. inversion H. cbn.
     apply andb_true_iff. split.
     + apply forallb_Forall. eapply mapM_Forall; [|exact M]. intros x0 y0 _ Hv. eapply IH. exact Hv.
@@ -144,6 +177,17 @@ Section LevelProofs.
       replace (zlen l') with (Z.max (zlen l - 1) 0) by lia. exact G.
     - cbn. split; [apply Forall_rev; exact F|]. unfold zlen. rewrite rev_length. exact LN.
     - apply lguard_inv; [exact I|]. intros G. cbn. split; [constructor|exact G].
+    - (* GRemove *)
+      apply lguard_inv; [exact I|]. intros G. destruct (remove item_pyeq l r) as [l'|e] eqn:E; [|exact I]. cbn.
+      split; [eapply Forall_remove; eassumption|].
+      pose proof (remove_length item_pyeq l l' r E). pose proof (zlen_nonneg l').
+      replace (zlen l') with (Z.max (zlen l - 1) 0) by lia. exact G.
+    - (* GSort *)
+      cbn. split; [apply Forall_sort; exact F|]. unfold zlen. rewrite sort_length. exact LN.
+    - (* GImul *)
+      apply lguard_inv; [exact I|]. intros G.
+      assert (LvInv (imul l n)) as R by (split; [apply Forall_imul; exact F|rewrite imul_length; exact G]).
+      destruct (n <? 1); exact R.
   Qed.
 
   Theorem level_inert l o e : lout (step l o) = Raise e -> lafter (step l o) = l /\ lnev (step l o) = 0%nat.
@@ -172,53 +216,156 @@ Section LevelProofs.
   Qed.
 End LevelProofs.
 
+(* ---------- one dict level ---------- *)
+Definition dout (r : dres) : res unit := fst (fst r).
+Definition dafter (r : dres) : imap := snd (fst r).
+Definition dnev (r : dres) : nat := snd r.
+
+Section DLevelProofs.
+  Variable kvld : Z -> option Z.
+  Variable vvld : item -> option item.
+  Variable PK : Z -> Prop.
+  Variable Q : item -> Prop.
+  Hypothesis HPK : forall k k', kvld k = Some k' -> PK k'.
+  Hypothesis HQ : forall r y, vvld r = Some y -> Q y.
+
+  Definition DR (p : Z * item) : Prop := PK (fst p) /\ Q (snd p).
+  Definition DvInv (m : imap) : Prop := Forall DR m.
+  Notation step := (dlevel_step kvld vvld).
+
+  Lemma pair_vld_DR p q : pair_vld kvld vvld p = Some q -> DR q.
+  Proof.
+    unfold pair_vld. destruct (kvld (fst p)) as [k'|] eqn:K; [|discriminate].
+    destruct (vvld (snd p)) as [v'|] eqn:V; [|discriminate]. intros H. inversion H. split; cbn; eauto.
+  Qed.
+
+  Theorem dlevel_inv m o : DvInv m -> DvInv (dafter (step m o)).
+  Proof.
+    intros F. unfold DvInv in *. destruct o as [k r|ps|k r|k|k| ]; cbn [dlevel_step].
+    - destruct (pair_vld kvld vvld (k, r)) as [[k' y]|] eqn:V; [|exact F].
+      cbn. apply F_dset; [eapply pair_vld_DR; exact V|exact F].
+    - destruct (mapM (pair_vld kvld vvld) ps) as [qs|] eqn:V; [|exact F]. cbn.
+      apply F_dupdate; [|exact F]. eapply mapM_Forall; [|exact V]. intros x y _ Hp. eapply pair_vld_DR. exact Hp.
+    - destruct (dlookup k m); [exact F|].
+      destruct (pair_vld kvld vvld (k, r)) as [[k' y]|] eqn:V; [|exact F].
+      cbn. apply F_dset; [eapply pair_vld_DR; exact V|exact F].
+    - destruct (dlookup k m); [|exact F]. cbn. apply F_dremove. exact F.
+    - destruct (dlookup k m); [|exact F]. cbn. apply F_dremove. exact F.
+    - cbn. constructor.
+  Qed.
+
+  Theorem dlevel_inert m o e : dout (step m o) = Raise e -> dafter (step m o) = m /\ dnev (step m o) = 0%nat.
+  Proof.
+    destruct o; cbn [dlevel_step]; unfold draise, dok, dout, dafter, dnev;
+      repeat match goal with
+             | |- context [match ?x with _ => _ end] => destruct x eqn:?
+             end; cbn [fst snd]; intros H; try discriminate; auto.
+  Qed.
+
+  Theorem dlevel_success m o :
+    dout (step m o) = Ok tt ->
+    forallb (fun p => match pair_vld kvld vvld p with Some _ => true | None => false end) (d_offered_pairs m o) = true.
+  Proof.
+    assert (forall ps qs, mapM (pair_vld kvld vvld) ps = Some qs ->
+            forallb (fun p => match pair_vld kvld vvld p with Some _ => true | None => false end) ps = true) as MA.
+    { induction ps as [|p ps IH]; intros qs H; cbn in *; [reflexivity|].
+      destruct (pair_vld kvld vvld p); [|discriminate]. destruct (mapM _ ps) as [t|]; [|discriminate]. cbn. eapply IH. reflexivity. }
+    destruct o; cbn [dlevel_step d_offered_pairs]; unfold draise, dok, dout;
+      repeat match goal with
+             | |- context [match ?x with _ => _ end] => destruct x eqn:?
+             end; cbn [fst snd]; intros H; try discriminate; try reflexivity; cbn [forallb];
+      repeat match goal with
+             | V : pair_vld _ _ _ = Some _ |- _ => rewrite V
+             | V : mapM _ _ = Some _ |- _ => apply MA in V; rewrite V
+             end; try reflexivity.
+  Qed.
+End DLevelProofs.
+
 (* ---------- any path ---------- *)
 Lemma wfb_list inner mn mx l :
   wfb (TList inner mn mx) (Lst l) = true <-> LvInv (fun y => wfb inner y = true) mn mx l.
 Proof. cbn. unfold LvInv. rewrite andb_true_iff, forallb_Forall. reflexivity. Qed.
 
+Lemma wfb_dict kk vt m :
+  wfb (TDict kk vt) (Dct m) = true <-> DvInv (fun k => dom_of kk k = true) (fun y => wfb vt y = true) m.
+Proof.
+  cbn. unfold DvInv, DR. rewrite forallb_Forall. split; intros F; eapply Forall_impl; try exact F; cbn; intros [k v]; cbn.
+  - intros H. apply andb_true_iff in H. exact H.
+  - intros [A B]. rewrite A, B. reflexivity.
+Qed.
+
 Theorem path_inv : forall path t x o, wfb t x = true -> wfb t (dp_after (path_step t x path o)) = true.
 Proof.
-  induction path as [|j p IH]; intros t x o W; destruct t as [vk|inner mn mx]; destruct x as [z|l];
-    cbn [path_step dp_after]; try exact W.
-  - destruct (level_step (validate inner) mn mx l o) as [[out l'] n] eqn:E. cbn [dp_after].
-    apply wfb_list. apply wfb_list in W.
-    pose proof (level_inv (validate inner) (fun y => wfb inner y = true) (fun r y => validate_wf inner r y) mn mx l o W) as I.
-    rewrite E in I. exact I.
-  - destruct (nth_error l j) as [y|] eqn:N; cbn [dp_after]; [|exact W].
+  induction path as [|[j|k] p IH]; intros t x o W.
+  - destruct t as [vk|inner mn mx|kk vt]; destruct x as [z|l|m]; destruct o as [g|d];
+      cbn [path_step bad_path dp_after]; try exact W.
+    + destruct (level_step (validate inner) mn mx l g) as [[out l'] n] eqn:E. cbn [dp_after].
+      apply wfb_list. apply wfb_list in W.
+      pose proof (level_inv (validate inner) (fun y => wfb inner y = true) (fun r y => validate_wf inner r y) mn mx l g W) as I.
+      rewrite E in I. exact I.
+    + destruct (dlevel_step (vld_of kk) (validate vt) m d) as [[out m'] n] eqn:E. cbn [dp_after].
+      apply wfb_dict. apply wfb_dict in W.
+      pose proof (dlevel_inv (vld_of kk) (validate vt) (fun k => dom_of kk k = true) (fun y => wfb vt y = true)
+                             (fun a b => vld_of_dom kk a b) (fun r y => validate_wf vt r y) m d W) as I.
+      rewrite E in I. exact I.
+  - destruct t as [vk|inner mn mx|kk vt]; destruct x as [z|l|m]; cbn [path_step bad_path dp_after]; try exact W.
+    destruct (nth_error l j) as [y|] eqn:N; cbn [dp_after]; [|exact W].
     apply wfb_list. apply wfb_list in W. destruct W as [F LN].
     assert (wfb inner y = true) as Wy by (rewrite Forall_forall in F; apply F; eapply nth_error_In; exact N).
     split.
     + apply Forall_set_nth; [apply IH; exact Wy|exact F].
     + unfold zlen. rewrite set_nth_length; [exact LN|]. apply nth_error_Some. congruence.
+  - destruct t as [vk|inner mn mx|kk vt]; destruct x as [z|l|m]; cbn [path_step bad_path dp_after]; try exact W.
+    destruct (dlookup k m) as [y|] eqn:N; cbn [dp_after]; [|exact W].
+    apply wfb_dict. apply wfb_dict in W. unfold DvInv in *.
+    pose proof (dlookup_In k m y N) as Hin. pose proof W as W0. rewrite Forall_forall in W0. destruct (W0 _ Hin) as [HK HY].
+    apply F_dset; [|exact W]. split; cbn; [exact HK|apply IH; exact HY].
 Qed.
 
 Theorem path_inert : forall path t x o e,
   dp_out (path_step t x path o) = Raise e -> dp_after (path_step t x path o) = x /\ dp_events (path_step t x path o) = 0%nat.
 Proof.
-  induction path as [|j p IH]; intros t x o e; destruct t as [vk|inner mn mx]; destruct x as [z|l];
-    cbn [path_step dp_out dp_after dp_events]; auto.
-  - destruct (level_step (validate inner) mn mx l o) as [[out l'] n] eqn:E. cbn [dp_out dp_after dp_events].
-    intros H. pose proof (level_inert (validate inner) mn mx l o e) as LI. rewrite E in LI.
-    unfold lout, lafter, lnev in LI. cbn [fst snd] in LI. destruct (LI H) as [-> ->]. auto.
-  - destruct (nth_error l j) as [y|] eqn:N; cbn [dp_out dp_after dp_events]; auto.
+  induction path as [|[j|k] p IH]; intros t x o e.
+  - destruct t as [vk|inner mn mx|kk vt]; destruct x as [z|l|m]; destruct o as [g|d];
+      cbn [path_step bad_path dp_out dp_after dp_events]; auto.
+    + destruct (level_step (validate inner) mn mx l g) as [[out l'] n] eqn:E. cbn [dp_out dp_after dp_events].
+      intros H. pose proof (level_inert (validate inner) mn mx l g e) as LI. rewrite E in LI.
+      unfold lout, lafter, lnev in LI. cbn [fst snd] in LI. destruct (LI H) as [-> ->]. auto.
+    + destruct (dlevel_step (vld_of kk) (validate vt) m d) as [[out m'] n] eqn:E. cbn [dp_out dp_after dp_events].
+      intros H. pose proof (dlevel_inert (vld_of kk) (validate vt) m d e) as LI. rewrite E in LI.
+      unfold dout, dafter, dnev in LI. cbn [fst snd] in LI. destruct (LI H) as [-> ->]. auto.
+  - destruct t as [vk|inner mn mx|kk vt]; destruct x as [z|l|m]; cbn [path_step bad_path dp_out dp_after dp_events]; auto.
+    destruct (nth_error l j) as [y|] eqn:N; cbn [dp_out dp_after dp_events]; auto.
     intros H. destruct (IH inner y o e H) as [HA HE]. rewrite HA, HE. split; [|reflexivity].
     f_equal. apply set_nth_same. exact N.
+  - destruct t as [vk|inner mn mx|kk vt]; destruct x as [z|l|m]; cbn [path_step bad_path dp_out dp_after dp_events]; auto.
+    destruct (dlookup k m) as [y|] eqn:N; cbn [dp_out dp_after dp_events]; auto.
+    intros H. destruct (IH vt y o e H) as [HA HE]. rewrite HA, HE. split; [|reflexivity].
+    f_equal. apply dset_same. exact N.
 Qed.
 
 Theorem path_success : forall path t x o,
-  dp_out (path_step t x path o) = Ok tt ->
-  match type_at t path with
-  | Some (TList inner _ _) => forallb (accb inner) (g_offered o) = true
-  | _ => True
-  end.
+  dp_out (path_step t x path o) = Ok tt -> offered_ok t x (DPath path o) = true.
 Proof.
-  induction path as [|j p IH]; intros t x o; destruct t as [vk|inner mn mx]; destruct x as [z|l];
-    cbn [path_step type_at dp_out]; try discriminate; auto.
-  - destruct (level_step (validate inner) mn mx l o) as [[out l'] n] eqn:E. cbn [dp_out]. intros H.
-    pose proof (level_success (validate inner) mn mx l o) as LS. rewrite E in LS. unfold lout in LS. cbn [fst] in LS.
-    exact (LS H).
-  - destruct (nth_error l j) as [y|] eqn:N; cbn [dp_out]; [|discriminate]. intros H. exact (IH inner y o H).
+  induction path as [|[j|k] p IH]; intros t x o.
+  - destruct t as [vk|inner mn mx|kk vt]; destruct x as [z|l|m]; destruct o as [g|d];
+      cbn [path_step bad_path dp_out offered_ok type_at item_at]; try discriminate; auto.
+    + destruct (level_step (validate inner) mn mx l g) as [[out l'] n] eqn:E. cbn [dp_out]. intros H.
+      pose proof (level_success (validate inner) mn mx l g) as LS. rewrite E in LS. unfold lout in LS. cbn [fst] in LS.
+      exact (LS H).
+    + destruct (dlevel_step (vld_of kk) (validate vt) m d) as [[out m'] n] eqn:E. cbn [dp_out]. intros H.
+      pose proof (dlevel_success (vld_of kk) (validate vt) m d) as LS. rewrite E in LS. unfold dout in LS. cbn [fst] in LS.
+      specialize (LS H). rewrite forallb_forall in *. intros [a b] Hin. specialize (LS _ Hin).
+      unfold pair_vld in LS. cbn [fst snd] in *. unfold acc_of, accb.
+      destruct (vld_of kk a); [|discriminate]. destruct (validate vt b); [reflexivity|discriminate].
+  - destruct t as [vk|inner mn mx|kk vt]; destruct x as [z|l|m]; cbn [path_step bad_path dp_out]; try discriminate.
+    destruct (nth_error l j) as [y|] eqn:N; cbn [dp_out]; [|discriminate]. intros H.
+    pose proof (IH inner y o H) as R. destruct o as [g|d]; cbn [offered_ok type_at item_at] in *; [exact R|].
+    rewrite N. exact R.
+  - destruct t as [vk|inner mn mx|kk vt]; destruct x as [z|l|m]; cbn [path_step bad_path dp_out]; try discriminate.
+    destruct (dlookup k m) as [y|] eqn:N; cbn [dp_out]; [|discriminate]. intros H.
+    pose proof (IH vt y o H) as R. destruct o as [g|d]; cbn [offered_ok type_at item_at] in *; [exact R|].
+    rewrite N. exact R.
 Qed.
 
 (* ---------- whole steps and histories ---------- *)
@@ -250,10 +397,10 @@ Proof.
   unfold law_deep_step. rewrite W', orb_true_r. cbn [chk app].
   destruct (dp_out (deep_step t x o)) as [[]|e] eqn:EO.
   - cbn [is_trait_error is_raise negb orb chk app].
-    assert (offered_ok t o = true) as ->; [|reflexivity].
-    destruct o as [path g|r]; cbn [offered_ok deep_step] in *.
-    + pose proof (path_success path t x g EO) as PS. destruct (type_at t path) as [[vk|inner mn mx]|]; auto.
-    + unfold accb. destruct (validate t r); [reflexivity|discriminate].
+    assert (offered_ok t x o = true) as ->; [|reflexivity].
+    destruct o as [path g|r]; cbn [deep_step] in *.
+    + exact (path_success path t x g EO).
+    + cbn [offered_ok]. unfold accb. destruct (validate t r); [reflexivity|discriminate].
   - destruct (deep_inert t x o e EO) as [HA HE]. rewrite HA, HE, item_eqb_refl.
     cbn. rewrite !orb_true_r. destruct e; reflexivity.
 Qed.
